@@ -44,29 +44,38 @@ Qed.
 Lemma paren_if_nid : forall b t, no_int_div (paren_if b t) = no_int_div t /\ int_typed (paren_if b t) = int_typed t.
 Proof. destruct b; split; reflexivity. Qed.
 
-Lemma int_typed_graft : forall a k, int_typed (graft BMul a k) = true -> int_typed a = true /\ int_typed k = true.
+Definition arith3 (o : binop) : Prop := o = BAdd \/ o = BSub \/ o = BMul.
+
+Lemma int_typed_graft_gen : forall o a k, arith3 o -> int_typed (graft o a k) = true -> int_typed a = true /\ int_typed k = true.
 Proof.
-  intros a k. induction k as [n|txt bits|s|k IHk|k IHk|o k1 IHk1 k2 IHk2|nl c IHc x IHx y IHy|f k IHk|f|nl k IHk];
-    cbn [graft]; try (cbn [int_typed]; intros H; apply andb_true_iff in H; exact H).
-  destruct o; cbn [bprec N.eqb Pos.eqb]; try (cbn [int_typed]; intros H; apply andb_true_iff in H; exact H).
-  - cbn [int_typed]. intros H. apply andb_true_iff in H. destruct H as [H1 H2]. destruct (IHk1 H1) as [A B].
-    split; auto. rewrite B, H2. reflexivity.
-  - cbn [int_typed]. intros H. apply andb_true_iff in H. destruct H as [H1 H2]. destruct (IHk1 H1) as [A B].
-    split; auto. rewrite B, H2. reflexivity.
+  intros o a k Ho. induction k as [n|txt bits|s|k IHk|k IHk|o' k1 IHk1 k2 IHk2|nl c IHc x IHx y IHy|f k IHk|f|nl k IHk];
+    cbn [graft]; try (destruct Ho as [?|[?|?]]; subst o; cbn [int_typed]; intros H; apply andb_true_iff in H; exact H).
+  destruct Ho as [?|[?|?]]; subst o; destruct o'; cbn [bprec N.eqb Pos.eqb];
+    try (cbn [int_typed]; intros H; apply andb_true_iff in H; exact H);
+    (cbn [int_typed]; intros H; apply andb_true_iff in H; destruct H as [H1 H2]; destruct (IHk1 H1) as [A B];
+     split; auto; rewrite B, H2; reflexivity).
+Qed.
+
+Lemma int_typed_graft : forall a k, int_typed (graft BMul a k) = true -> int_typed a = true /\ int_typed k = true.
+Proof. intros a k. apply int_typed_graft_gen. right. right. reflexivity. Qed.
+
+Lemma nid_graft_gen : forall o a k, arith3 o -> no_int_div a = true -> no_int_div k = true -> no_int_div (graft o a k) = true.
+Proof.
+  intros o a k Ho Ha. induction k as [n|txt bits|s|k IHk|k IHk|o' k1 IHk1 k2 IHk2|nl c IHc x IHx y IHy|f k IHk|f|nl k IHk];
+    intros Hk; cbn [graft]; try (destruct Ho as [?|[?|?]]; subst o; cbn [no_int_div] in *; rewrite Ha; try rewrite Hk; reflexivity).
+  destruct Ho as [?|[?|?]]; subst o; destruct o'; cbn [bprec N.eqb Pos.eqb];
+    try (cbn [no_int_div] in *; rewrite Ha; try rewrite Hk; reflexivity);
+    try (cbn [no_int_div] in *; apply andb_true_iff in Hk; destruct Hk as [Hk _]; apply andb_true_iff in Hk; destruct Hk as [H1 H2];
+         rewrite (IHk1 H1), H2; reflexivity).
+  (* o = BMul, o' = BDiv *)
+  cbn [no_int_div] in *. apply andb_true_iff in Hk. destruct Hk as [Hk H3]. apply andb_true_iff in Hk. destruct Hk as [H1 H2].
+  rewrite (IHk1 H1), H2. simpl. apply negb_true_iff. apply negb_true_iff in H3.
+  destruct (int_typed (graft BMul a k1)) eqn:E; [|reflexivity].
+  destruct (int_typed_graft _ _ E) as [_ B]. rewrite B in H3. exact H3.
 Qed.
 
 Lemma nid_graft : forall a k, no_int_div a = true -> no_int_div k = true -> no_int_div (graft BMul a k) = true.
-Proof.
-  intros a k Ha. induction k as [n|txt bits|s|k IHk|k IHk|o k1 IHk1 k2 IHk2|nl c IHc x IHx y IHy|f k IHk|f|nl k IHk];
-    intros Hk; cbn [graft]; try (cbn [no_int_div] in *; rewrite Ha; try rewrite Hk; reflexivity).
-  destruct o; cbn [bprec N.eqb Pos.eqb]; try (cbn [no_int_div] in *; rewrite Ha; try rewrite Hk; reflexivity).
-  - cbn [no_int_div] in *. apply andb_true_iff in Hk. destruct Hk as [Hk _]. apply andb_true_iff in Hk. destruct Hk as [H1 H2].
-    rewrite (IHk1 H1), H2. reflexivity.
-  - cbn [no_int_div] in *. apply andb_true_iff in Hk. destruct Hk as [Hk H3]. apply andb_true_iff in Hk. destruct Hk as [H1 H2].
-    rewrite (IHk1 H1), H2. simpl. apply negb_true_iff. apply negb_true_iff in H3.
-    destruct (int_typed (graft BMul a k1)) eqn:E; [|reflexivity].
-    destruct (int_typed_graft _ _ E) as [_ B]. rewrite B in H3. exact H3.
-Qed.
+Proof. intros a k. apply nid_graft_gen. right. right. reflexivity. Qed.
 
 Lemma neg_graft_nid : forall k, no_int_div (neg_graft k) = no_int_div k /\ int_typed (neg_graft k) = int_typed k.
 Proof.
@@ -209,10 +218,12 @@ Section Node2.
   Proof.
     intros acc t Ha Ht. unfold add_join. destruct acc as [a|]; [|split; auto].
     destruct (strip_neg t) as [t'|] eqn:E.
-    - destruct (strip_neg_nid _ _ E) as [S1 S2]. unfold nid in *. cbn [no_int_div int_typed]. rewrite Ha, S1, Ht, S2.
-      split; [reflexivity|]. intros I. apply andb_true_iff in I. tauto.
-    - unfold nid in *. cbn [no_int_div int_typed]. rewrite Ha, Ht. split; [reflexivity|].
-      intros I. apply andb_true_iff in I. tauto.
+    - destruct (strip_neg_nid _ _ E) as [S1 S2]. unfold nid in *.
+      split; [apply nid_graft_gen; [right; left; reflexivity | exact Ha | rewrite S1; exact Ht]|].
+      intros I. destruct (int_typed_graft_gen BSub a t' (or_intror (or_introl eq_refl)) I) as [I1 I2].
+      rewrite <- S2. auto.
+    - unfold nid in *. split; [apply nid_graft_gen; [left; reflexivity | exact Ha | exact Ht]|].
+      intros I. destruct (int_typed_graft_gen BAdd a t (or_introl eq_refl) I) as [I1 I2]. auto.
   Qed.
 
   Lemma add_terms_inv2 : forall l acc t, add_terms cf pr acc l = Ok t ->
